@@ -24,7 +24,6 @@ ASSUMPTIONS = [
     "SDK spans are root spans of a real TracerProvider with a scripted id generator/sampler (flags 0/1); other flag bytes and invalid ids are "
     "made active as DefaultSpan / shared_ptr<SpanContext> context values",
     "Logger::Enabled(severity) / minimum severity is not consulted by EmitLogRecord at this commit and no SDK code sets it: not modelled",
-    "EventId{id} (no name) crashes (open finding F29): such cases run in a forked child process and a dead child is observed as CRASH",
 ]
 TRUSTED = ["model coq/C13/Model.v (+ coq/C10/Model.v for the runtime context) is hand-written; tied by this correspondence run",
            "harness/c13_sigs.inc: the fixed table of argument-type sequences instantiated for EmitLogRecord(args...) (tools/c13_gen_sigs.py)"]
@@ -206,7 +205,7 @@ def scope_name(lg):
     return lg[1] if lg[1] else lg[0]
 
 
-def gen_case(rng, profile, crashy=False, ill=False):
+def gen_case(rng, profile, nameless=True, ill=False, force_nameless=False):
     g = Gen(rng, profile)
     r = rng
     g.make_heap()
@@ -304,7 +303,7 @@ def gen_case(rng, profile, crashy=False, ill=False):
             if c:
                 i = r.choice(c)
                 kind = r.choice(KINDS + ["obs", "eidraw", "bav", "kvi", "vec"])
-                a, rf = g.arg(kind, crashy)
+                a, rf = g.arg(kind, nameless)
                 ops.append("AP %d %s" % (i, a))
                 if slots[i] == "live":
                     referenced += rf
@@ -324,7 +323,7 @@ def gen_case(rng, profile, crashy=False, ill=False):
             ops.append("EN %d %d" % (thread(), pick_logger()))
         elif k < 72:      # variadic
             sig = r.choice(SIGS_E) if r.chance(2, 3) else r.choice([s for s in SIGS_E if len(s) >= 3])
-            a, rf = g.args_for(sig, crashy)
+            a, rf = g.args_for(sig, nameless)
             l = pick_logger(None if r.chance(1, 5) else True)
             ops.append(("EV %d %d %s" % (thread(), l, a)).strip())
             if enabled(l):
@@ -334,8 +333,8 @@ def gen_case(rng, profile, crashy=False, ill=False):
                 i = r.choice(list(range(len(slots))))
                 l = pick_logger(None if r.chance(1, 4) else True)
                 sig = r.choice(SIGS_R)
-                a, rf = g.args_for(sig, crashy)
-                if slots[i] == "noop" and enabled(l) and "eidn" not in a:
+                a, rf = g.args_for(sig, nameless)
+                if slots[i] == "noop" and enabled(l):
                     continue
                 ops.append(("ER %d %d %d %s" % (thread(), l, i, a)).strip())
                 if slots[i] == "live":
@@ -344,7 +343,7 @@ def gen_case(rng, profile, crashy=False, ill=False):
                         slots[i] = "null"
         elif k < 86:      # Log() / Trace().. wrappers
             named = r.below(2)
-            form = r.choice([0, 1, 2, 2] + ([3] if crashy else []))
+            form = r.choice([0, 1, 2, 2] + ([3] if nameless else []))
             sev = r.choice(LEVELS) if named else r.choice([0, 1, 9, 17, 24, 200])
             m, rf = g.aval("s")
             kv, rf2 = g.kvs()
@@ -354,7 +353,7 @@ def gen_case(rng, profile, crashy=False, ill=False):
                 referenced += rf + (rf2 if form >= 1 else [])
         elif k < 90:      # templated Trace(args...)
             sig = r.choice(SIGS_L)
-            a, rf = g.args_for(sig, crashy)
+            a, rf = g.args_for(sig, nameless)
             l = pick_logger(None if r.chance(1, 5) else True)
             ops.append(("LV %d %d %d %s" % (thread(), l, r.choice(LEVELS), a)).strip())
             if enabled(l):
@@ -371,7 +370,7 @@ def gen_case(rng, profile, crashy=False, ill=False):
     if profile != "scalar" or r.chance(1, 2):
         for _ in range(r.choice([0, 1, 2, 3, 4])):
             ops.append(mutation(g, r, referenced))
-    if crashy and r.chance(2, 3):
+    if force_nameless and r.chance(2, 3):      # EventId{id} through every entry point (F29, fixed)
         j = r.below(4)
         l = pick_logger()
         if j == 0:
@@ -440,7 +439,7 @@ def gen(rng, tier):
     for _ in range(600 * n):
         cases.append(gen_case(rng, "nobatch"))
     for _ in range(120 * n):
-        cases.append(gen_case(rng, "mixed", crashy=True))
+        cases.append(gen_case(rng, "mixed", force_nameless=True))
     for _ in range(40 * n):
         cases.append(gen_case(rng, "mixed", ill=True))
     return cases
@@ -475,6 +474,5 @@ LEVEL_TEXT = ("Theorems in coq/Properties_C13.v about the Gallina model of the S
               "nothing over every operation sequence, each processor exactly once, independence of later caller writes proved for scalar values and "
               "refuted with a witness for strings/arrays (F15), model_meets_spec.  The model is tied to the C++ on every run: extracted model vs "
               "ASan/UBSan driver on the same generated programs, and the extracted SPEC checker on the implementation's observations.")
-LEVEL_NOTE = ("Trusted: Coq kernel, extraction, ocaml/driver.ml, harness/c13_driver.cc (exporters, probe recordable, thread hand-over, fork for "
-              "crashing cases), the generator, tools/extract_consts.py; the model is hand-written (tied by correspondence); the variadic pack "
+LEVEL_NOTE = ("Trusted: Coq kernel, extraction, ocaml/driver.ml, harness/c13_driver.cc (exporters, probe recordable, thread hand-over), the generator, tools/extract_consts.py; the model is hand-written (tied by correspondence); the variadic pack "
               "expansion is exercised for the 351 argument-type sequences of harness/c13_sigs.inc only (the model theorem is for every list).")
